@@ -210,6 +210,10 @@ def handle (fn : String) (a : Json) : R Json := do
     let f : Record → Bool := fun x => ((answers.find? (·.1 == x)).map (·.2)).getD false
     let out := format f r
     pure (obj [("record", recJsonC out), ("valid", ofBool (SchemaOk out)), ("queries", ofNat answers.length)])
+  | "refused" =>
+    let env ← envOf (← field a "env")
+    let recs := Http.refused env (← strF a "name") (← Engine.Driver.exn (← field a "cause")) (← natF a "status")
+    pure (obj [("records", ofList (recs.map recJsonC)), ("valid", ofList (recs.map fun r => ofBool (SchemaOk r)))])
   | "renderStr" =>
     -- the JSON text of one string value as the formatters write it (escaping per the extracted `ensure_ascii` setting)
     pure (ofStr (renderStr G.jsonAsciiOnly (← strF a "s")))
